@@ -34,6 +34,11 @@ def run(ctx):
     r013(ctx, t0, t1)
     r014(ctx)
     r015(ctx)
+    # "whether the simplifier is applied to one expression or to all expressions of a transition system": the system-level driver
+    # (system/transform.rs, anchored by this property) must hand every expression of the system to the engine and re-point every field
+    # to its own result - the clauses of C11, re-evaluated here under their own rule ids
+    from . import c11
+    c11.run(ctx, for_simplifier=True)
 
 
 def r011(ctx, t0, t1):
